@@ -317,7 +317,9 @@ func runAPICase(ac APICase) (*Fail, error) {
 	}()
 	client := &http.Client{Timeout: 20 * time.Second}
 	get := func(u string) (int, error) {
-		resp, err := client.Get(u)
+		rq, _ := http.NewRequest("GET", u, nil)
+		rq.Header.Set("X-Verif-Origin", "harness")
+		resp, err := client.Do(rq)
 		if err != nil {
 			return 0, err
 		}
@@ -373,6 +375,7 @@ func runAPICase(ac APICase) (*Fail, error) {
 		if body != nil {
 			req.Header.Set("Content-Type", "application/json")
 		}
+		req.Header.Set("X-Verif-Origin", "harness")
 		what := fmt.Sprintf("request %d: %s %s %s?action=%s class=%s body=%q (state %s/%s RF=%d)", i, r.Target, r.Method, r.Path, r.Action, r.Class, tailStr(r.Body, 80), ac.Cfg.State, ac.Cfg.Extra, ac.Cfg.RF)
 		sigBase := fmt.Sprintf("%s|%s|%s", targetKind(r.Target), r.Route, r.Class)
 		t0 := time.Now()
@@ -430,6 +433,7 @@ func runAPICase(ac APICase) (*Fail, error) {
 						if body != nil {
 							req.Header.Set("Content-Type", "application/json")
 						}
+						req.Header.Set("X-Verif-Origin", "harness")
 						t0 := time.Now()
 						resp, err := cl.Do(req)
 						if err == nil {
@@ -552,6 +556,15 @@ func genAPICase(t *rapid.T) APICase {
 		State: rapid.SampledFrom([]string{"empty", "started", "started", "degraded", "wo"}).Draw(t, "state"),
 		Extra: rapid.SampledFrom([]string{"initial", "closed", "closed", "open", "rebuilding"}).Draw(t, "extra"),
 	}
+	// in a third of the cases one or two of the requests the controller sends to
+	// its replicas while it serves a management request get no answer (connection closed)
+	if rapid.IntRange(0, 2).Draw(t, "drops") == 0 {
+		pats := []string{"DELETE /v1/delete", "?snapshot", "?revert", "?resize", "?close", "?open", "?setreplicamode", "?setrevisioncounter",
+			"?prepareremovedisk", "GET /v1/replicas/1", "?setcheckpoint", "?start", "?setrebuilding", "?reload"}
+		for k := rapid.IntRange(1, 2).Draw(t, "ndrops"); k > 0; k-- {
+			cfg.Drop = append(cfg.Drop, rapid.SampledFrom(pats).Draw(t, "drop"))
+		}
+	}
 	n := rapid.IntRange(1, 30).Draw(t, "nreq")
 	ac := APICase{Cfg: cfg}
 	for i := 0; i < n; i++ {
@@ -611,6 +624,9 @@ func TestC14(t *testing.T) {
 			}
 		}
 		labels := []string{"state:" + ac.Cfg.State, "extra:" + ac.Cfg.Extra}
+		if len(ac.Cfg.Drop) > 0 {
+			labels = append(labels, "replica-requests-dropped")
+		}
 		for c := range classes {
 			labels = append(labels, "class:"+c)
 		}
